@@ -114,6 +114,10 @@ class HashedIterable(Generic[T]):
         """
         yield from self.values.values()
         for v in self.iterable:
+            if v.id_ in self.values:
+                # listed more than once: it has been yielded already, and will be yielded once from the memoised
+                # values on every later iteration.
+                continue
             self.values[v.id_] = v
             yield v
 
